@@ -13,6 +13,7 @@ from cxxheaderparser.errors import CxxParseError
 from cxxheaderparser.options import ParserOptions
 from cxxheaderparser.simple import parse_string, parse_file
 
+TECHNIQUE = "Lean 4: verbose irrelevance proved by simulation over all client programs and inputs and instantiated at the parser model, void-option theorems on the model's parameter post-processing, preprocessor-once on the entry model; correspondences with each option toggled"
 LEAN_TARGET = "CxxModel.Props.C18"
 THEOREMS = ["Cxx.C18_verbose_irrelevant", "Cxx.C18_verbose_parser", "Cxx.C18_void_off", "Cxx.C18_void_on", "Cxx.C18_void_conversion",
             "Cxx.C18_preprocessor_once", "Cxx.verbose_sim"]
